@@ -10,10 +10,10 @@ import _dp
 
 def run(c):
     drv = c.build("dp")
-    _dp.model(c)
     if c.replay:
         trace = c.replay
     else:
+        _dp.model(c)
         trace = c.scratch + "/dp.ndjson"
         c.run_driver(drv, ["-mode", "honest", "-out", trace, "-topos", "T1,T2,T3",
                            "-random", 40 if c.thorough else 3])
